@@ -191,7 +191,9 @@ def r4_repr_fallback(ctx):
         p = u._parent
         kind = None
         if isinstance(p, ast.Compare) and len(p.ops) == 1 and isinstance(p.ops[0], (ast.Is, ast.IsNot)):
-            kind = 'identity test'
+            other = p.comparators[0] if p.left is u else p.left
+            if (isinstance(other, ast.Attribute) and other.attr == 'NOT_EVALED') or is_name(other, 'NOT_EVALED'):
+                kind = 'identity test against NOT_EVALED'
         elif isinstance(p, ast.Call) and is_name(p.func, 'repr') and p.args and p.args[0] is u and ctx.res.resolve_call(f, p) == ('builtin', 'repr'):
             kind = 'repr()'
             n_repr += 1
@@ -199,7 +201,8 @@ def r4_repr_fallback(ctx):
             kind = 'type() for a message'
         rep.ob('C02.R4', ctx.loc(f, u), ctx.src(p), kind is not None,
                'value used only as %s' % kind if kind else
-               'the evaluated value is used outside repr()/identity test: a got text derived this way is not the repr the property specifies',
+               'the evaluated value is inspected / used outside repr() and the NOT_EVALED identity test: which wants are accepted then depends on the value itself '
+               '(or the got text is not the repr the property specifies)',
                anchor=q)
     # the repr result must reach the first argument of check_output
     g = ctx.cfg(f)
@@ -487,6 +490,7 @@ VARIANTS = [
          (CK, "                got = repr(got_eval)\n            except Exception as ex:", "                got = str(got_eval)\n            except Exception as ex:")),
     fire('K4-format-instead-of-repr', 'C02.R4',
          (CK, "                    got = repr(got_eval)\n", "                    got = '{}'.format(got_eval)\n")),
+    fire('none-value-never-falls-back', 'C02.R4', (CK, "            if not flag:\n                # allow eval to fallback and save us", "            if not flag and got_eval is not None:\n                # allow eval to fallback and save us")),
     fire('E2-drop-has-any-code', 'C02.R5',
          (DE, "                if not part.has_any_code():\n", "                if False:\n")),
     fire('E2-no-skip-record', 'C02.R5',
